@@ -158,6 +158,7 @@ pub struct TlsWorld {
     pub unflushed: Vec<u8>,
     /// reads that found written-but-unflushed bytes while the client had nothing more to send
     pub reads_with_unflushed_output: u64,
+    pub bytes_delivered_at_close: u64,
     /// garbage to send instead of a ClientHello (malformed-input workloads)
     pub instead_of_hello: Option<Vec<u8>>,
     /// stop sending after this many raw client bytes (truncated ClientHello etc.)
@@ -206,6 +207,7 @@ impl TlsWorld {
             buffer_writes: false,
             unflushed: vec![],
             reads_with_unflushed_output: 0,
+            bytes_delivered_at_close: 0,
             instead_of_hello: None,
             raw_limit: None,
             close_notify: true,
@@ -285,6 +287,17 @@ impl TlsWorld {
                 }
             }
             St::Closed => {}
+        }
+    }
+    /// The connection is over and the server returned an error without flushing: a transport hands what
+    /// it was given to the peer when it is closed (a `BufWriter` in its destructor, a socket anyway).
+    /// Only for error returns: after `Ok(())` the last reply must have been flushed by the server
+    /// itself, and what was not stays invisible.
+    pub fn deliver_at_close(&mut self) {
+        if !self.unflushed.is_empty() {
+            let b = std::mem::take(&mut self.unflushed);
+            self.bytes_delivered_at_close += b.len() as u64;
+            self.on_server_bytes(&b);
         }
     }
     fn on_server_bytes(&mut self, buf: &[u8]) {
